@@ -31,8 +31,7 @@ TR = 'openhtf/core/test_record.py'
 LG = 'openhtf/util/logs.py'
 
 
-def r1_exit_paths(report, repo):
-  rule = 'C09-R1'
+def r1_exit_paths(report, repo, rule='C09-R1'):
   report.rule(rule, 'T-MUST: Test.execute: finalize() and the callbacks loop in '
               'the finally of the wait try; deregistration, executor close and '
               'reset in the inner finally')
@@ -414,3 +413,5 @@ def run(report, repo):
   report.guard(c01.r1_who, report, repo, rule='C09-R10')
   from sa.rules import c04  # pylint: disable=g-import-not-at-top
   report.guard(c04.r8_single_body, report, repo, rule='C09-R9')
+  from sa.rules import extra4  # pylint: disable=g-import-not-at-top
+  report.guard(extra4.state_before_any_exit, report, repo, 'C09-R11')
